@@ -331,6 +331,10 @@ def build_tensor(spec: dict, idx: int, run_seed: int, acct: Accounting, ext_file
             return _np_tensor(payload, dtype, shape, name)
 
         t = ir.LazyTensor(thunk, dtype=dt(dtype), shape=ir.Shape(shape), cache=spec.get("cache", False), name=name)
+    elif kind == "ext" and spec.get("broken"):
+        # an external tensor whose path cannot even be stat'ed (the tensor is unreadable: a save that needs it fails)
+        loc = {"notdir": "blocker/x.bin", "loop": "loop/x.bin", "toolong": "n" * 300 + ".bin", "nul": "we\0ird.bin"}[spec["broken"]]
+        t = ir.ExternalTensor(loc, 0, len(payload), dt(dtype), shape=ir.Shape(shape), name=name, base_dir=ext_files["other"]["base_dir"])
     elif kind == "ext":
         # already-external tensor living in file spec["file"] (relative to root/base) at a given slot
         fkey = spec["file"]
